@@ -2,7 +2,7 @@
     messages of the spawned tasks, the exit code is a disjunction over the filtered diagnostics,
     the writers accumulate exactly the filtered diagnostics, whatever the arrival order. *)
 From Coq Require Import Permutation Lia.
-From EV Require Import C36.Model.
+From EV Require Import C36.Model Gen.C36_send.
 Local Open Scope N_scope.
 
 (** * list facts *)
@@ -264,6 +264,83 @@ Proof.
     apply Permutation_length. apply perm_filter.
     eapply perm_trans; [apply Permutation_flat_map; exact Hp|]. unfold sent. rewrite flat_map_map. apply Permutation_refl. }
   rewrite !Hc. repeat split; lia.
+Qed.
+
+(** * workers and channel *)
+Definition all_of (c : chan) : list message := ch_delivered c ++ ch_queue c ++ ch_blocked c.
+Definition msg_of (D : N -> option (list diag)) (e : event) : list message :=
+  match e with Produce f => [(f, D f)] | Consume => [] end.
+
+Lemma chan_step_awaited : forall cap D c e,
+  Permutation (all_of (chan_step true cap D c e)) (all_of c ++ msg_of D e).
+Proof.
+  intros cap D c e. unfold all_of. destruct e as [f|]; cbn [chan_step msg_of].
+  - destruct (has_room cap (ch_queue c)); cbn [ch_queue ch_blocked ch_delivered].
+    + rewrite <- !app_assoc. apply Permutation_app_head. apply Permutation_app_head. apply Permutation_app_comm.
+    + rewrite <- !app_assoc. apply Permutation_refl.
+  - rewrite app_nil_r. destruct (ch_queue c) as [|m r] eqn:Eq; [rewrite Eq; apply Permutation_refl|].
+    destruct (ch_blocked c) as [|p ps]; cbn [ch_queue ch_blocked ch_delivered];
+      rewrite <- !app_assoc; cbn [app]; apply Permutation_refl.
+Qed.
+
+Lemma chan_fold_awaited : forall cap D sched c,
+  Permutation (all_of (fold_left (chan_step true cap D) sched c)) (all_of c ++ flat_map (msg_of D) sched).
+Proof.
+  intros cap D. induction sched as [|e r IH]; intros c; cbn [fold_left flat_map].
+  - rewrite app_nil_r. apply Permutation_refl.
+  - eapply perm_trans; [apply IH|]. rewrite app_assoc. apply Permutation_app_tail. apply chan_step_awaited.
+Qed.
+
+Lemma msgs_of_produced : forall D sched, flat_map (msg_of D) sched = sent (produced sched) D.
+Proof.
+  intros D. unfold sent, produced. induction sched as [|e r IH]; cbn [flat_map map]; [reflexivity|].
+  rewrite map_app, IH. destruct e; reflexivity.
+Qed.
+
+Lemma awaited_delivers_all : forall cap D files sched,
+  Permutation (produced sched) files -> drained (chan_run true cap D sched) ->
+  Permutation (ch_delivered (chan_run true cap D sched)) (sent files D).
+Proof.
+  intros cap D files sched Hp [Hq Hb].
+  pose proof (chan_fold_awaited cap D sched chan0) as H. unfold all_of in H.
+  fold (chan_run true cap D sched) in H. rewrite Hq, Hb in H. cbn [chan0 ch_delivered ch_queue ch_blocked app] in H.
+  rewrite app_nil_r in H. eapply perm_trans; [exact H|].
+  rewrite msgs_of_produced. unfold sent. apply Permutation_map. exact Hp.
+Qed.
+
+(** every task's message arrives exactly once — because the worker awaits its send *)
+Lemma every_task_delivers : forall D files sched,
+  Permutation (produced sched) files ->
+  drained (chan_run worker_send_awaited capacity D sched) ->
+  Permutation (arrivals D sched) (sent files D).
+Proof. intros D files sched Hp Hd. unfold arrivals. apply awaited_delivers_all; assumption. Qed.
+
+Lemma delivery_complete_iff_awaited : forall awaited,
+  (forall cap D files sched, Permutation (produced sched) files -> drained (chan_run awaited cap D sched) ->
+     Permutation (ch_delivered (chan_run awaited cap D sched)) (sent files D)) <-> awaited = true.
+Proof.
+  intros awaited. split.
+  - intros H. destruct awaited; [reflexivity|]. exfalso.
+    specialize (H (Some 1) (fun _ => None) [1; 2] [Produce 1; Produce 2; Consume; Consume] (Permutation_refl _)).
+    assert (drained (chan_run false (Some 1) (fun _ => None) [Produce 1; Produce 2; Consume; Consume])) as Hd
+      by (vm_compute; split; reflexivity).
+    specialize (H Hd). apply Permutation_length in H. vm_compute in H. discriminate.
+  - intros ->. apply awaited_delivers_all.
+Qed.
+
+Lemma checker_end_to_end : forall o D files sched,
+  Permutation (produced sched) files ->
+  drained (chan_run worker_send_awaited capacity D sched) ->
+  let st := run o (N.of_nat (length files)) (arrivals D sched) in
+  (exit_code st <> 0 <->
+     exists f ds d, In f files /\ D f = Some ds /\ In d ds /\ passes o d = true /\ is_error o d = true)
+  /\ Permutation (report_pairs (st_writer st)) (expected_pairs o files D)
+  /\ st_count st = N.of_nat (length files).
+Proof.
+  intros o D files sched Hp Hd. cbn zeta.
+  pose proof (every_task_delivers D files sched Hp Hd) as Hm.
+  split; [apply exit_iff_error; exact Hm|]. split; [apply report_exact; exact Hm|].
+  apply loop_terminates with (D := D). exact Hm.
 Qed.
 
 (** * example *)
